@@ -43,6 +43,76 @@ def check(repo, col, tier):
     _edges(repo, col)
     _loc(repo, col)
     _named(repo, col)
+    _basestate(repo, col)
+
+
+def _basestate(repo, col):
+    """A view holds SNAPSHOTS of the module's registries (groups, channels, synapses, recordings, externals, ... --
+    whatever View.__init__ assigns on self), taken when the view was created.  A method that updates the registry
+    of the base module must decide on the base's CURRENT registry: a guard that consults the snapshot (`self.groups`
+    instead of `self.base.groups`) takes the 'new entry' branch for a view created earlier and overwrites what other
+    views added meanwhile."""
+    R = "R-C11-basestate"
+    vi = repo.method("View", "__init__")
+    exv = idx.expander(repo, vi)
+    snap = {s.key.name for s in exv.stores if s.kind == "attr" and s.base.op == "param" and s.base.name == "self"}
+    snap -= {"base", "_scope", "_current_view", "nodes", "edges"}
+    if len(snap) < 8:
+        raise AnalysisError(f"View.__init__ assigns only {sorted(snap)}: snapshot attributes not recognised")
+    col.info["view_snapshot_attributes"] = sorted(snap)
+
+    def base_registry(t):
+        """X if t is rooted at self.base.X"""
+        cur = t
+        while cur.op in ("attr", "sub", "mcall"):
+            if cur.op == "attr" and cur.args[0].op == "attr" and cur.args[0].name == "base" and _is_self(cur.args[0].args[0]):
+                return cur.name
+            cur = cur.args[0]
+        return None
+
+    n = 0
+    from . import common
+    cg = common._callgraph(repo)
+    ctor_only = set()
+    for m in repo.classes["Module"].methods.values():
+        callers = [k for k, v in cg.items() if (m.file, m.qual) in v and k != (m.file, m.qual)]
+        if callers and all(q.endswith(".__init__") and not q.startswith("View.") for _f, q in callers):
+            ctor_only.add(m.name)  # runs while `self` is the module under construction: self.X is the base's X
+    col.info["constructor_only_methods"] = sorted(ctor_only)
+    for m in repo.classes["Module"].methods.values():
+        if m.name in ctor_only:
+            continue
+        ex = idx.expander(repo, m)
+        for s_ in ex.stores:
+            if s_.kind not in ("sub", "mcall", "attr", "aug"):
+                continue
+            reg = base_registry(s_.base) or (s_.key.name if s_.kind == "attr" and s_.base.op == "attr" and s_.base.name == "base"
+                                             and _is_self(s_.base.args[0]) else None)
+            if reg not in snap or not s_.guards:
+                continue
+            n += 1
+            stale = None
+            for g in s_.guards:
+                # polarity of the guard: "the entry is ABSENT from <registry>" is the create-if-absent decision
+                neg = False
+                cur = g
+                while cur.op in ("not", "unary") and (cur.op == "not" or cur.name == "Not"):
+                    neg = not neg
+                    cur = cur.args[0]
+                if cur.op != "cmp" or cur.name not in ("in", "not in") or len(cur.args) != 2:
+                    continue
+                absent = (cur.name == "not in") != neg
+                hit = T.find(cur.args[1], lambda x: x.op == "attr" and x.name == reg and _is_self(x.args[0]))
+                if absent and hit is not None:
+                    stale = g
+            col.check(stale is None, R, m, f"{m.name}: update of base.{reg} `{unparse(s_.node)[:50]}` is decided on the base's current registry",
+                      "guards read self.base." + reg,
+                      f"the guard `{stale.short(80) if stale else ''}` reads `self.{reg}`, the view's snapshot taken when the view was created, "
+                      f"but the statement updates `self.base.{reg}`: a view object created before another view added an entry takes the "
+                      f"wrong branch and overwrites it", node=s_.node)
+    col.rule(R, "updates of the base module's registries are decided on the base's current state, not on the view's snapshot", 3)
+    if n < 3:
+        raise AnalysisError(f"only {n} guarded updates of base registries found")
 
 
 def _named(repo, col):
@@ -326,6 +396,27 @@ def _registry(repo, col):
 # --------------------------------------------------------------------------------------
 
 
+def _str_parts(t):
+    """A string built by `+` and f-strings as the list of its pieces (adjacent literals merged)."""
+    if t.op == "binop" and t.name == "+":
+        raw = _str_parts(t.args[0]) + _str_parts(t.args[1])
+    elif t.op == "fstr":
+        raw = [p for a in t.args for p in _str_parts(a)]
+    elif t.op == "const" and isinstance(t.name, str):
+        raw = [t.name]
+    elif t.op in ("fmt", "formatted") and t.args:
+        raw = _str_parts(t.args[0])
+    else:
+        raw = [t]
+    out = []
+    for p_ in raw:
+        if isinstance(p_, str) and out and isinstance(out[-1], str):
+            out[-1] += p_
+        elif p_ != "":
+            out.append(p_)
+    return out
+
+
 def _filter(repo, col):
     R = "R-C11-filter"
     for name, tbl, inview in (("_at_nodes", "nodes", None), ("_at_edges", "edges", None)):
@@ -340,6 +431,8 @@ def _filter(repo, col):
         col.check(inds is not None and other not in t.kw and t.args[0].op == "param" and t.args[0].name == "self", R, fi,
                   f"{name}: View(self, {tbl}=...)", "only this table is filtered", f"View built as {t.short(120)}", node=call)
         ok = False
+        if inds is not None:
+            inds = idx.inline(repo, fi, inds)  # a row-matching helper shared by _at_nodes/_at_edges is looked through
         detail = inds.short(140) if inds is not None else None
         if inds is not None:
             # self.<tbl>.index[ self.<tbl>[scope + "_<key>_index"].isin(idx) ]
@@ -354,9 +447,10 @@ def _filter(repo, col):
                     own2 = c.args[0].op == "attr" and c.args[0].name == tbl and _is_self(c.args[0].args[0])
                     colname = c.args[1]
                     k = fi.params[1]
-                    name_ok = colname.op == "binop" and colname.name == "+" and colname.args[0].op == "attr" and \
-                        colname.args[0].name == "_scope" and _is_self(colname.args[0].args[0]) and colname.args[1].op == "fstr" and \
-                        [a.pretty() for a in colname.args[1].args] == ["'_'", k, "'_index'"]
+                    parts = _str_parts(colname)
+                    name_ok = len(parts) == 4 and not isinstance(parts[0], str) and parts[0].op == "attr" and parts[0].name == "_scope" and \
+                        _is_self(parts[0].args[0]) and parts[1] == "_" and not isinstance(parts[2], str) and parts[2].op == "param" and \
+                        parts[2].name == k and parts[3] == "_index"
                     ok = own_tbl and own2 and name_ok
                     detail = f"index owner {owner.short()}, column {colname.short()}"
         col.check(ok, R, fi, f"{name}: rows of the view's own table whose <scope>_<key>_index is selected",
